@@ -71,6 +71,9 @@ pub struct UserSink {
     pub bits: Vec<bool>,
     pub ops: Vec<String>,
     pub fail_at: Option<usize>,
+    /// when set, only the `fail_at`-th CALL fails (a transient failure); every later call is accepted
+    pub transient: bool,
+    pub calls: usize,
 }
 
 #[derive(Debug)]
@@ -84,7 +87,13 @@ impl std::error::Error for UserSinkError {}
 
 impl UserSink {
     fn tick(&mut self, what: String) -> Result<(), UserSinkError> {
-        if Some(self.ops.len()) == self.fail_at {
+        let call = self.calls;
+        self.calls += 1;
+        if self.transient {
+            if Some(call) == self.fail_at {
+                return Err(UserSinkError);
+            }
+        } else if Some(self.ops.len()) == self.fail_at {
             return Err(UserSinkError);
         }
         self.ops.push(what);
